@@ -102,7 +102,7 @@ type wspec struct {
 }
 
 type sev struct {
-	Kind string // W R S(tart) T(ret) B(eg) E(nd)
+	Kind string // W R F(ault) S(tart) T(ret) B(eg) E(nd)
 	Idx  int
 	URL  string
 	OK   bool
@@ -114,6 +114,8 @@ func (g *gen) sevTerm(s sev) string {
 		return CApp("SW", CN(int64(s.Idx)))
 	case "R":
 		return CApp("SR", CN(int64(s.Idx)), g.e.urlTerm(s.URL))
+	case "F":
+		return CApp("SF", CN(int64(s.Idx)))
 	case "S":
 		return CApp("AStart", CN(int64(s.Idx)))
 	case "T":
@@ -128,6 +130,8 @@ func (s sev) String() string {
 	switch s.Kind {
 	case "W":
 		return fmt.Sprintf("W%d", s.Idx)
+	case "F":
+		return fmt.Sprintf("F%d", s.Idx)
 	case "R", "B":
 		return fmt.Sprintf("%s%d(%s)", s.Kind, s.Idx, s.URL)
 	case "T":
@@ -257,6 +261,7 @@ func (g *gen) runHooked(root string, writers []wspec, sched []sev) (points []int
 	evt := make(chan hookEvt, 16)
 	gos := make([]chan struct{}, n)
 	state := make([]int, n) // 0 not started, 1 held at a hook point, 2 finished
+	last := make([]int, n)  // the hook point a held writer is at
 	cur := -1
 	tmps = map[int]string{}
 	var released atomic.Bool
@@ -351,7 +356,18 @@ func (g *gen) runHooked(root string, writers []wspec, sched []sev) (points []int
 	for _, s := range sched {
 		switch s.Kind {
 		case "W":
-			points = append(points, advance(s.Idx))
+			last[s.Idx] = advance(s.Idx)
+			points = append(points, last[s.Idx])
+		case "F":
+			// fault injection: the writer is held at "closed"; its temporary file is unlinked behind its
+			// back, so os.Rename fails and WriteFile takes its error path (Close, Remove, return the error)
+			if state[s.Idx] == 1 && last[s.Idx] == 3 {
+				os.Remove(filepath.Join(root, tmps[s.Idx]))
+				last[s.Idx] = advance(s.Idx)
+				points = append(points, last[s.Idx])
+			} else {
+				points = append(points, 0)
+			}
 		case "R":
 			for i := range state {
 				if state[i] == 1 {
@@ -573,6 +589,104 @@ func (g *gen) hookSchedules() {
 				g.hookCase("hook-shared-parts", []wspec{{u0, pr[0]}, {u0, pr[1]}}, insertReads(ws, pos, []string{u0, u0, u0}))
 			}
 		}
+	}
+	// the error path of WriteFile (fault injection F: the rename of a writer held at "closed" is made to
+	// fail): the failed Set leaves no temporary file and no entry, never disturbs the entry of another
+	// writer of the same or another URL, and a later Set of the same URL works. Every interleaving of a
+	// complete writer with a failing one, reads after every return and at the end
+	for n, ws := range full {
+		r := rng.Fork(uint64(g.id))
+		b0, b1 := pickB(r)
+		bad := n % 2 // which writer fails: its 4th step is the fault
+		wu1 := u0
+		if n%5 == 4 {
+			wu1 = u1
+		}
+		var sc []sev
+		cnt := [2]int{}
+		rd := 0
+		for _, x := range ws {
+			cnt[x]++
+			if x == bad && cnt[x] == 4 {
+				sc = append(sc, sev{Kind: "F", Idx: x})
+			} else {
+				sc = append(sc, sev{Kind: "W", Idx: x})
+			}
+			if cnt[x] == 4 {
+				sc = append(sc, sev{Kind: "R", Idx: rd, URL: u0})
+				rd++
+			}
+		}
+		sc = append(sc, sev{Kind: "R", Idx: rd, URL: wu1})
+		g.hookCase("hook-fault", []wspec{{u0, b0}, {wu1, b1}}, sc)
+	}
+	// histories with a failing Set on one long-lived reader instance: (Get,) Set A, Get, Set B FAILS, Get
+	// (still A, not a miss, not B), Set C, Get (C); and a failing Set as the very first one (Get = miss);
+	// plus F where it has no effect (writer not started / not at "closed" / already finished)
+	for v := 0; v < 6; v++ {
+		r := rng.Fork(uint64(g.id))
+		perm := []int{0, 1, 2, 3, 4}
+		Shuffle(r, perm)
+		wr := []wspec{{u0, e.small[perm[0]]}, {u0, e.small[perm[1]]}, {u0, e.small[perm[2]]}}
+		var sc []sev
+		rd := 0
+		read := func(u string) { sc = append(sc, sev{Kind: "R", Idx: rd, URL: u}); rd++ }
+		steps := func(w, n int) {
+			for j := 0; j < n; j++ {
+				sc = append(sc, sev{Kind: "W", Idx: w})
+			}
+		}
+		fail := func(w int) { steps(w, 3); sc = append(sc, sev{Kind: "F", Idx: w}) }
+		switch v {
+		case 0, 1:
+			if v == 1 {
+				read(u0)
+			}
+			steps(0, 4)
+			read(u0)
+			fail(1)
+			read(u0)
+			steps(2, 4)
+			read(u0)
+		case 2:
+			fail(0)
+			read(u0)
+			steps(1, 4)
+			read(u0)
+			fail(2)
+			read(u0)
+		case 3:
+			// F without effect: on a writer not started, at "created", at "written", and finished
+			sc = append(sc, sev{Kind: "F", Idx: 0})
+			steps(0, 1)
+			sc = append(sc, sev{Kind: "F", Idx: 0})
+			steps(0, 1)
+			sc = append(sc, sev{Kind: "F", Idx: 0})
+			read(u0)
+			steps(0, 2)
+			sc = append(sc, sev{Kind: "F", Idx: 0})
+			read(u0)
+		case 4:
+			// two failing writers overlapping a complete one
+			steps(1, 2)
+			steps(0, 3)
+			steps(2, 3)
+			sc = append(sc, sev{Kind: "F", Idx: 0})
+			read(u0)
+			steps(1, 2)
+			read(u0)
+			sc = append(sc, sev{Kind: "F", Idx: 2})
+			read(u0)
+		case 5:
+			// a failed writer is advanced again (nothing left to do), then abandoned writers remain
+			fail(0)
+			steps(0, 1)
+			steps(1, 2)
+			read(u0)
+			steps(2, 4)
+			read(u0)
+		}
+		g.hookCase("hook-fault-history", wr, sc)
 	}
 	// URL variants: an upper-case twin, a twin with a leading blank and the empty URL are different
 	// keys: what is stored for one is never read for another (odd URL written first / last / only)
